@@ -26,7 +26,7 @@ DEFAULT_PROFILE = dict(
     subscript_whole_array_results=True, raise_=True, nested_calls=True,
     persistent_arrays=True, name_pool="plain", zero_trip=True, negative_consts=True,
     dead_code=True, cond_in_call_args=True, bare_power=True, ne_operator=True,
-    pow_of_pow=True, loop_bound_vars=True, fresh_names=False, lookups=False, complex_vars=False, assign_all_state=False,
+    pow_of_pow=True, loop_bound_vars=True, fresh_names=False, lookups=False, complex_vars=False, assign_all_state=False, time_advance=True, force_phases=None, extra_kinds=(), zero_arg_calls=True,
     real_temps=None, uvec_temps=None, arr_temps=None, flag_temps=None, int_temps=None,
 )
 
@@ -592,7 +592,14 @@ class Gen:
         if not self.p["calls"]:
             return []
         uv = self.names_of(UVEC)
-        k = self.choice(["f", "f", "g", "two", "none"])
+        k = self.choice(["f", "f", "g", "two", "none", "zero"])
+        if k == "zero" and self.p["zero_arg_calls"]:
+            name = self.fresh_or_existing(REAL, self.REAL_TEMPS, [n for n in P_REAL if self.types.get(n) == REAL])
+            if name is None:
+                return []
+            self.define(name, REAL)
+            self.features.add("zero_arg_call")
+            return [["call", [name], "<func>zero", [], {}]]
         if k == "f" and uv:
             pers = [n for n in P_UVEC if self.types.get(n) == UVEC]
             name = self.fresh_or_existing(UVEC, self.UVEC_TEMPS, pers)
@@ -708,6 +715,7 @@ class Gen:
                 kinds += ["exit", "exit"]
             elif self.p["dead_code"]:
                 kinds += ["exit"] if self.chance(15) else []
+            kinds += list(self.p["extra_kinds"])
             if self.p["fresh_names"]:
                 kinds += ["fresh"]
             if self.p["complex_vars"]:
@@ -740,7 +748,7 @@ class Gen:
             elif k == "if":
                 new = self.op_if(depth, 3)
             elif k == "time":
-                new = self.op_time_advance()
+                new = self.op_time_advance() if self.p["time_advance"] else []
             else:
                 new = self.op_exit()
             ops.extend(new)
@@ -791,6 +799,9 @@ def methods(draw, profile=None):
     p = g.p
     nph = draw(st.integers(1, p["max_phases"]))
     names = ["p%d" % i for i in range(nph)] if draw(st.booleans()) else ["init", "main", "extra"][:nph]
+    if p["force_phases"]:
+        names = [x[0] for x in p["force_phases"]]
+        nph = len(names)
     g.phase_names = names
     # persistent variables, fixed up front
     state = {}
@@ -858,9 +869,12 @@ def methods(draw, profile=None):
         body += g.block(0, draw(st.integers(1, p["max_ops"])))
         if p["yields"] and g.chance(50):
             body += g.op_yield()
-        if g.chance(60):
+        if g.chance(60) and p["time_advance"]:
             body += g.op_time_advance()
-        phases.append({"name": name, "next": draw(st.sampled_from(names)), "body": body})
+        nxt = draw(st.sampled_from(names))
+        if p["force_phases"]:
+            nxt = p["force_phases"][i][1]
+        phases.append({"name": name, "next": nxt, "body": body})
     if p["assign_all_state"]:
         # kind inference can only type a persistent variable that is assigned somewhere
         extra = []
@@ -921,3 +935,48 @@ def method_features(method):
     if len(method["phases"]) > 1:
         f.add("multi_phase")
     return f
+
+
+def bind_sites(method):
+    """Give every user-function call site its own function name ('<func>f__3').
+    Returns (new method, [site names])."""
+    import copy
+    from vlib.tree import children, rebuild
+    m = copy.deepcopy(method)
+    sites = []
+
+    def ren(name):
+        if name.startswith("<func>"):
+            s = "%s__%d" % (name, len(sites))
+            sites.append(s)
+            return s
+        return name
+
+    def tr(t):
+        if t[0] == "call":
+            t = ["call", ren(t[1]), t[2], t[3] if len(t) > 3 else {}]
+        return rebuild(t, [tr(c) for c in children(t)])
+
+    def walk(ops):
+        for op in ops:
+            k = op[0]
+            if k == "assign":
+                op[3] = tr(op[3])
+                if op[2]:
+                    op[2] = [tr(x) for x in op[2]]
+                op[4] = [[l[0], tr(l[1]), tr(l[2])] for l in op[4]]
+            elif k == "call":
+                op[3] = [tr(a) for a in op[3]]
+                op[4] = {n: tr(v) for n, v in op[4].items()}
+                op[2] = ren(op[2])
+            elif k == "if":
+                op[1] = tr(op[1])
+                walk(op[2])
+                if op[3]:
+                    walk(op[3])
+            elif k == "yield":
+                op[1] = tr(op[1])
+                op[3] = tr(op[3])
+    for ph in m["phases"]:
+        walk(ph["body"])
+    return m, sites
